@@ -124,11 +124,27 @@ func Field(base *Term, name string, typ types.Type) *Term {
 	return mk('f', name, nil, typ, base)
 }
 func Index(base, idx *Term, typ types.Type) *Term { return mk('i', "", nil, typ, base, idx) }
+
+// IndexOf is Index with the prefix-slice normalisation of the canoniser: x[:n][i] is x[i].
+func IndexOf(base, idx *Term, typ types.Type) *Term {
+	if base.K == 's' && len(base.A) >= 2 && base.A[1].K == 'z' && base.A[0].Typ != nil {
+		if _, isSlice := base.A[0].Typ.Underlying().(*types.Slice); isSlice {
+			base = base.A[0]
+		}
+	}
+	return mk('i', "", nil, typ, base, idx)
+}
 func Deref(p *Term, typ types.Type) *Term       { return mk('d', "", nil, typ, p) }
 func CallT(fn string, typ types.Type, args ...*Term) *Term {
 	return mk('k', fn, nil, typ, args...)
 }
-func LenOf(t *Term) *Term { return mk('k', "len", nil, types.Typ[types.Int], t) }
+func LenOf(t *Term) *Term {
+	// len(x[:n]) is n (the slice expression would have panicked otherwise)
+	if t.K == 's' && len(t.A) >= 3 && t.A[1].K == 'z' && t.A[2].K != 'z' && (len(t.A) < 4 || t.A[3].K == 'z') {
+		return t.A[2]
+	}
+	return mk('k', "len", nil, types.Typ[types.Int], t)
+}
 func Bin(op string, l, r *Term) *Term {
 	return mk('b', op, nil, l.Typ, l, r)
 }
@@ -418,7 +434,14 @@ func (c *Canon) term(sc *scope, e ast.Expr) *Term {
 		if tv, ok := sc.info.Types[x.Index]; ok && tv.IsType() {
 			return c.opaque(sc, e) // generic instantiation
 		}
-		return mk('i', "", nil, typ, c.term(sc, x.X), c.term(sc, x.Index))
+		bt := c.term(sc, x.X)
+		// x[:n][i] is x[i]
+		if bt.K == 's' && len(bt.A) >= 2 && bt.A[1].K == 'z' {
+			if _, isSlice := bt.A[0].Typ.Underlying().(*types.Slice); isSlice {
+				bt = bt.A[0]
+			}
+		}
+		return mk('i', "", nil, typ, bt, c.term(sc, x.Index))
 	case *ast.SliceExpr:
 		args := []*Term{c.term(sc, x.X)}
 		for _, b := range []ast.Expr{x.Low, x.High, x.Max} {
@@ -502,7 +525,12 @@ func (c *Canon) callTerm(sc *scope, call *ast.CallExpr) *Term {
 				args = append(args, c.term(sc, a))
 			}
 			switch b.Name() {
-			case "len", "cap":
+			case "len":
+				if len(args) == 1 {
+					return LenOf(args[0])
+				}
+				return mk('k', b.Name(), nil, types.Typ[types.Int], args...)
+			case "cap":
 				return mk('k', b.Name(), nil, types.Typ[types.Int], args...)
 			case "make", "new", "append":
 				// results are fresh or derived values; identity by position
